@@ -6,10 +6,19 @@ import numpy as np
 import ot
 from sklearn.metrics import pairwise_kernels, pairwise_distances
 from sklearn.metrics.pairwise import PAIRWISE_KERNEL_FUNCTIONS, PAIRWISE_DISTANCE_FUNCTIONS
+from sklearn.utils import check_array
 from sklearn.utils._param_validation import StrOptions, Interval
 
 from .._constraints import constraint_params
 from ._base_loss import _GEMINI
+
+
+def _check_precomputed(X, y):
+    # A precomputed affinity must hold one row and one column per sample
+    y = check_array(y, input_name="Precomputed affinity")
+    if y.shape[0] != y.shape[1] or y.shape[0] != len(X):
+        raise ValueError(f"The precomputed affinity should be a square matrix of size {len(X)}, got shape {y.shape}")
+    return y
 
 
 class MMDGEMINI(_GEMINI):
@@ -89,7 +98,7 @@ class MMDGEMINI(_GEMINI):
         elif self.kernel == "precomputed":
             if y is None:
                 raise ValueError(f"Kernel should be precomputed, yet no kernel was passed as parameters: y={y}")
-            return y
+            return _check_precomputed(X, y)
         _params = dict() if self.kernel_params is None else self.kernel_params
         return pairwise_kernels(X, metric=self.kernel, **_params)
 
@@ -227,7 +236,7 @@ class WassersteinGEMINI(_GEMINI, ABC):
         elif self.metric == "precomputed":
             if y is None:
                 raise ValueError(f"Kernel should be precomputed, yet no kernel was passed as parameters: y={y}")
-            return y
+            return _check_precomputed(X, y)
         _params = dict() if self.metric_params is None else self.metric_params
         return pairwise_distances(X, metric=self.metric, **_params)
 
